@@ -4,7 +4,7 @@
 set -u
 W=$1; N=$2
 cd "$W" || exit 2
-export CARGO_NET_OFFLINE=true CARGO_TARGET_DIR=$W/target RUST_BACKTRACE=0
+export CARGO_NET_OFFLINE=true CARGO_TARGET_DIR=$W/target RUST_BACKTRACE=0 CARGO_INCREMENTAL=0 CARGO_PROFILE_DEV_DEBUG=0 CARGO_PROFILE_TEST_DEBUG=0
 git checkout -q -- . ; rm -f tests/seeded_demo.rs
 cp OUT/demo$N.rs tests/seeded_demo.rs
 echo "== clean source: demo"
